@@ -83,6 +83,8 @@ def plan(seed, subbatch):
             head, _, field = spec["params"]["input_value"].partition(".")
             spec["params"]["input_value"] = f"{head}_{tf}" + (f".{field}" if field else "")
     config["fill"] = fill
+    if config["kind"] == "indicator" and sub_rng(seed, "ctype").random() < 0.12:
+        spec["common"]["candlestick_type"] = "HA"
     config["base_s"] = base_s
     config["utc_offset_min"] = cfg.choice((None, None, None, None, 0, 60, 330))   # timezone-aware streams
     n = cfg.choice((cfg.randint(2, 30), cfg.randint(20, 150), cfg.randint(100, 600)))
